@@ -20,7 +20,7 @@ EXPLANATION = (
     "for exp in particular. Bounds: one program per query (programs do not interact in these functions), values <= 1e9, unit cost >= 1e-6, saturation in [1e-3,100], "
     "series of <= 2 points. Outside: float rounding, pchip/linear interpolation of spending (not used by these methods)."
 )
-GROUP_TIMEOUT = {"quick": 600, "thorough": 1800}
+GROUP_TIMEOUT = {"quick": 1500, "thorough": 3000}
 VMAX = 1e9
 
 
